@@ -18,6 +18,8 @@ NIGHTLY = os.environ.get('VERIF_NIGHTLY', 'nightly')
 CRATES = {
     'core': {'pkg': 'cedar-policy-core', 'dir': 'cedar-policy-core', 'features': 'partial-eval,tpe'},
     'symcc': {'pkg': 'cedar-policy-symcc', 'dir': 'cedar-policy-symcc', 'features': ''},
+    # the public API crate: FFI / protobuf / permission-query wrappers (its dump contains only its own bodies; calls into cedar-policy-core are stubs)
+    'api': {'pkg': 'cedar-policy', 'dir': 'cedar-policy', 'features': 'partial-eval,tpe,protobufs', 'extra_src': ['cedar-policy-core/src']},
 }
 
 
@@ -56,6 +58,8 @@ def build_mir(crate, log=print):
             os.path.join(REPO, 'Cargo.toml')]
     if crate == 'symcc':
         srcs.append(os.path.join(REPO, 'cedar-policy-core', 'src'))
+    for x in c.get('extra_src', []):
+        srcs.append(os.path.join(REPO, x))
     flags = f'-Zunpretty=mir -Zmir-include-spans=on -C debug-assertions=off -C overflow-checks=on|{c["features"]}|{NIGHTLY}'
     key = tree_hash(srcs) + hashlib.sha256(flags.encode()).hexdigest()[:8]
     out = os.path.join(BUILD, 'mir', f'{crate}-{key}.mir')
@@ -280,6 +284,8 @@ class Ctx:
             self.log(f'[mir] {crate}: {os.path.basename(path)} ({"cached" if cached else f"built in {dt:.0f}s"}), {len(self.progs[crate]._spans)} functions')
             feats = set(CRATES[crate]['features'].split(',')) | {'default', 'ipaddr', 'decimal', 'datetime'}
             self.enum_index[crate] = EnumIndex(os.path.join(REPO, CRATES[crate]['dir'], 'src'), feats)
+            for x in CRATES[crate].get('extra_src', []):
+                self.enum_index[crate].add_dir(os.path.join(REPO, x))
         return self.progs[crate]
 
     def new_exec(self, crate='core', mode='int', **kw):
